@@ -143,6 +143,27 @@ def run(F, R, tier):
                 "writable static-storage variable%s" % (" (static local in %s)" % g.get("infunc") if g.get("staticlocal") else ""),
                 key="P3|%s" % g["name"])
 
+    R.rule("P3b", "no static-storage constant is initialised from run-time values (parameters, locals, object "
+                  "state): such a 'constant' would freeze the first caller's data", 30)
+    for key, g in sorted(F.globals.items()):
+        ini = g.get("init")
+        if ini is None:
+            R.ok("P3b", "%s (no dynamic initialiser)" % g["name"], "%s:%s" % (g["file"], g["line"]))
+            continue
+        bad = None
+        for n in walk(ini):
+            if n.get("k") == "DeclRefExpr" and n.get("rk") in ("Param", "Var"):
+                bad = n
+                break
+            if n.get("k") == "CXXThisExpr":
+                bad = n
+                break
+        R.check("P3b", bad is None, "%s initialiser uses only constants" % g["name"], "%s:%s" % (g["file"], g["line"]),
+                "static%s `%s` is initialised from the run-time value `%s`: it keeps the value of the first "
+                "evaluation in the process" % (" local" if g.get("staticlocal") else "", g["name"].split("::")[-1],
+                                               (bad.get("n") or "this") if bad else ""),
+                key="P3b|%s" % g["name"])
+
     # ---- P4 ---------------------------------------------------------------------
     R.rule("P4", "the call closure of the calculation/model API reaches no nondeterminism source or "
                  "process-global state and uses no unordered container", 300)
